@@ -448,6 +448,9 @@ func TestC04_Exhaustive(t *testing.T) {
 	var mu = make(chan struct{}, 1)
 	failed := false
 	run := func(ops []ROp, b behaviour, batch *evid.Batch) {
+		if failed {
+			return
+		}
 		c := ReaderCase{Total: b.total, Bytes: b.bytes, Plan: b.plan, Ops: ops}
 		if b.bytes {
 			c.Cap = nextPow2(b.total)
